@@ -28,31 +28,26 @@ Proof. exact (fun c r a disc => close_once py_cap py_lower c r disc a). Qed.
 Print Assumptions C09_close_once.
 
 (* The outcome of HTTPChannel.service() by what was raised (outcome_spec, in
-   Proof/TaskC09.v):
+   Proof/TaskC09.v), for every exception class -- Exception, OSError and
+   BaseException subclasses alike:
    - nothing raised: nothing escapes, no 500, the bytes are the task's own;
    - ClientDisconnected: closed, no further bytes;
-   - an Exception after output began: closed, no further bytes;
-   - an Exception before any output: the ladder's 500 is served, then closed
+   - anything else after output began: closed, no further bytes;
+   - anything else before any output: the ladder's 500 is served, then closed
      (the only exception the 500 task itself can let out is an encode error of
-     the server's own strings);
-   - an OSError subclass with log_socket_errors off: closed silently (F16);
-   - a BaseException subclass that is not an Exception: it ESCAPES; neither the
-     close branch nor the next-request branch is taken (F15). *)
-Theorem C09_outcome : forall c r a disc, outcome_spec c (run_task c r a disc).
+     the server's own strings). *)
+Theorem C09_outcome : forall c r a disc, outcome_spec (run_task c r a disc).
 Proof. exact (fun c r a disc => service_outcome py_cap py_lower c r disc a). Qed.
 Print Assumptions C09_outcome.
 
-(* The property as stated, outside the two open classes: if what was raised is an
-   Exception that is not an OSError (or log_socket_errors is on), then before any
-   output the 500 is served and the connection closed, after output the
-   connection is closed without further bytes; nothing escapes unless the
-   server's own strings cannot be encoded. *)
-Theorem C09_contained_partial : forall c r a disc e,
+(* The property as stated, at full strength: whatever the application raised
+   (other than the server's own ClientDisconnected), before any output the 500 is
+   served and the connection closed, after output the connection is closed
+   without further bytes. *)
+Theorem C09_contained : forall c r a disc e,
   let res := run_task c r a disc in
   o_raw res = Some e ->
   exn_eqb e ClientDisconnected = false ->
-  is_Exception e = true ->
-  (is_OSError e = false \/ c_log_socket_errors c = true) ->
   (o_wrote_header1 res = true ->
      o_close res = true /\ o_next res = false /\ o_escaped res = None
      /\ o_served_500 res = false /\ o_writes res = o_writes1 res)
@@ -60,18 +55,15 @@ Theorem C09_contained_partial : forall c r a disc e,
      o_served_500 res = true
      /\ (o_escaped res = None -> o_close res = true /\ o_next res = false)
      /\ (forall e1, o_escaped res = Some e1 -> e1 = UnicodeEncodeError)).
-Proof. exact (contained_partial py_cap py_lower). Qed.
-Print Assumptions C09_contained_partial.
+Proof. exact (contained py_cap py_lower). Qed.
+Print Assumptions C09_contained.
 
-(* Whatever leaves service() is a BaseException subclass raised through the
-   application (then nothing was decided), or an encode error of the 500. *)
+(* Nothing leaves service() except an encode error of the server's own 500
+   (server strings that are not latin-1: configuration, not application). *)
 Theorem C09_escape : forall c r a disc e,
   let res := run_task c r a disc in
-  o_escaped res = Some e ->
-  (is_Exception e = false /\ o_raw res = Some e /\ o_served_500 res = false
-   /\ o_close res = false /\ o_next res = false)
-  \/ (e = UnicodeEncodeError /\ o_served_500 res = true).
-Proof. exact (escape_partial py_cap py_lower). Qed.
+  o_escaped res = Some e -> e = UnicodeEncodeError /\ o_served_500 res = true.
+Proof. exact (escape_only_encode py_cap py_lower). Qed.
 Print Assumptions C09_escape.
 
 (* The worker survives: handler_thread's catch-all turns whatever escaped
@@ -92,30 +84,32 @@ Proof. exact (fun c1 c2 r a disc H => no_traceback_leak py_cap py_lower c1 c2 H 
 Print Assumptions C09_no_traceback_leak.
 
 (* The 500 served before any output is a function of server strings only and
-   nothing precedes it (from C08). *)
+   nothing precedes it (from C08), for every script. *)
 Theorem C09_500_complete : forall c r disc a,
   cfg_clean c ->
   match r_error r with Some e => err_clean e | None => True end ->
-  app_ok a ->
   let res := run_task c r a disc in
   o_served_500 res = true ->
   o_writes1 res = [] /\ o_writes res = response_500 py_cap py_lower c r disc (o_nws1 res).
 Proof. exact (fun c r disc a Hc Hr => served_500_bytes py_cap py_lower py_cap_clean c Hc r disc Hr a). Qed.
 Print Assumptions C09_500_complete.
 
-(* The full statement is false of the faithful model in two classes. *)
-Theorem C09_baseexception_refuted :
+(* The two classes that used to be open, as instances of the theorems above:
+   a BaseException subclass (escaped before 72e39ad) and an application OSError
+   with log_socket_errors off (silent close before 4ec4884) get the 500. *)
+Theorem C09_baseexception_contained :
   let res := run_task sample_cfg sample_req base_app None in
-  o_escaped res = Some AppBaseException /\ o_writes res = [] /\ o_close res = false /\ o_next res = false.
-Proof. exact baseexception_limbo. Qed.
-Print Assumptions C09_baseexception_refuted.
+  o_escaped res = None /\ o_served_500 res = true /\ o_close res = true /\ o_next res = false
+  /\ o_writes res = response_500 py_cap py_lower sample_cfg sample_req None 0.
+Proof. exact baseexception_contained. Qed.
+Print Assumptions C09_baseexception_contained.
 
-Theorem C09_oserror_refuted :
+Theorem C09_oserror_answered :
   let res := run_task quiet_cfg sample_req oserr_app None in
   o_raw res = Some AppOSError /\ o_wrote_header1 res = false
-  /\ o_served_500 res = false /\ o_writes res = [] /\ o_close res = true.
-Proof. exact oserror_swallowed. Qed.
-Print Assumptions C09_oserror_refuted.
+  /\ o_served_500 res = true /\ o_close res = true /\ o_escaped res = None.
+Proof. exact oserror_answered. Qed.
+Print Assumptions C09_oserror_answered.
 
 (* A connection already marked for closing (will_close, read by service() next to
    connected) is not executed: the application is not called, nothing is written,
